@@ -501,6 +501,17 @@ func (v *UnixVolume) Untrash(loc string) (err error) {
 			foundTrash = true
 			err = v.os.Rename(v.blockPath(f.Name()), v.blockPath(loc))
 			if err == nil {
+				// The untrashed copy carries the (old) timestamp it had
+				// when it was trashed, and it may just have replaced a
+				// freshly written copy. Give it a current timestamp,
+				// like the S3 driver does with its recent/ marker, so it
+				// is protected from garbage collection for another
+				// BlobSigningTTL.
+				ts := time.Now()
+				v.os.stats.TickOps("utimes")
+				v.os.stats.Tick(&v.os.stats.UtimesOps)
+				err = os.Chtimes(v.blockPath(loc), ts, ts)
+				v.os.stats.TickErr(err)
 				break
 			}
 		}
